@@ -48,10 +48,10 @@ StepPlain(s, x, valid) ==
   LET s1 == IF valid THEN Observe(s, x) ELSE s
   IN  Decay(s1, bn, bd, 1)
 
-(* one group row of the time weighted EMA (halflife = 1 time unit): decay by  *)
-(* the time elapsed since the group's previous row, then observe-or-repeat    *)
+(* one group row of the time weighted EMA: decay by bn/bd = (1/2)^(time unit / halflife) per unit of the time elapsed   *)
+(* since the group's previous row (1/2 for a halflife of one unit, 1/4 for half a unit), then observe-or-repeat       *)
 StepTimed(s, x, valid, t) ==
-  LET s0 == IF s.any THEN Decay(s, 1, 2, t - s.lt) ELSE s     \* no decay before the group's first row
+  LET s0 == IF s.any THEN Decay(s, bn, bd, t - s.lt) ELSE s     \* no decay before the group's first row
       s1 == IF valid THEN Observe(s0, x) ELSE s0
   IN  [s1 EXCEPT !.lt = t, !.any = TRUE]
 
@@ -81,8 +81,8 @@ RECURSIVE SumSeq(_, _)
 SumSeq(f, n) == IF n = 0 THEN 0 ELSE f[n] + SumSeq(f, n - 1)
 DefEma(i, g) ==
   LET vi == ValidIdx(i, g)
-      n0 == IF timed THEN 1 ELSE bn
-      d0 == IF timed THEN 2 ELSE bd
+      n0 == bn
+      d0 == bd
       maxage == IF vi = <<>> THEN 0 ELSE Age(i, vi[1], g)
       wnum == [x \in 1..Len(vi) |-> Pow(n0, Age(i, vi[x], g)) * Pow(d0, maxage - Age(i, vi[x], g))]
       num == SumSeq([x \in 1..Len(vi) |-> histE[vi[x]].v * wnum[x]], Len(vi))
